@@ -232,7 +232,33 @@ class Cutter(ast.NodeTransformer):
         return out
 
     # ---- comprehensions ------------------------------------------------------------------
+    class _BoolOps(ast.NodeTransformer):
+        """inside comprehension bodies: `a and b`, `a or b`, `not a` -> engine calls that stay symbolic when an operand is a proxy
+        evaluated at a bound variable (python's own operators would force a branch there)"""
+        def visit_BoolOp(self, n):
+            n = self.generic_visit(n)
+            lams = [ast.Lambda(ast.arguments(posonlyargs=[], args=[], kwonlyargs=[], kw_defaults=[], defaults=[]), v) for v in n.values]
+            return ast.copy_location(ast.Call(ast.Attribute(ast.Name("__pv", ast.Load()), "bool_and" if isinstance(n.op, ast.And) else "bool_or", ast.Load()),
+                                              [ast.List(lams, ast.Load())], []), n)
+
+        def visit_UnaryOp(self, n):
+            n = self.generic_visit(n)
+            if isinstance(n.op, ast.Not):
+                return ast.copy_location(ast.Call(ast.Attribute(ast.Name("__pv", ast.Load()), "bool_not", ast.Load()), [n.operand], []), n)
+            return n
+
+        def visit_Lambda(self, n): return n
+        def visit_ListComp(self, n): return n
+        def visit_GeneratorExp(self, n): return n
+        def visit_SetComp(self, n): return n
+        def visit_DictComp(self, n): return n
+
     def _lam(self, target, body):
+        if isinstance(body, ast.expr) and not isinstance(body, ast.Lambda):
+            body = self._BoolOps().visit(body)
+        return self._lam0(target, body)
+
+    def _lam0(self, target, body):
         if isinstance(target, ast.Name):
             args = ast.arguments(posonlyargs=[], args=[ast.arg(target.id)], kwonlyargs=[], kw_defaults=[], defaults=[])
             return ast.Lambda(args, body)
